@@ -81,8 +81,7 @@ func provenance(toks []gen.Tok, df string) (cols, strs map[string]bool) {
 
 var plainRe = regexp.MustCompile(`^[A-Za-z_][A-Za-z0-9_]*$`)
 
-func checkSQLText(kind, sql string, params []any, cols, strs map[string]bool, c SQLCase) (*report.Failure, bool) {
-	text := c.text()
+func checkSQLText(kind, sql string, params []any, cols, strs map[string]bool, c SQLCase, text string) (*report.Failure, bool) {
 	bound := sql
 	if kind == "param" {
 		var n int
@@ -142,8 +141,21 @@ func checkSQLText(kind, sql string, params []any, cols, strs map[string]bool, c 
 	return nil, hostile
 }
 
+// rawSQLCase is a query given as raw text whose tokens were cut by the lexer.
+type rawSQLCase struct {
+	SQLCase
+	Raw []byte `json:"raw"`
+}
+
+func checkC02Raw(c rawSQLCase) (*report.Failure, bool, bool) {
+	return checkC02Text(c.SQLCase, string(c.Raw))
+}
+
 func checkC02(c SQLCase) (f *report.Failure, rendered, hostile bool) {
-	text := c.text()
+	return checkC02Text(c, c.text())
+}
+
+func checkC02Text(c SQLCase, text string) (f *report.Failure, rendered, hostile bool) {
 	defer func() {
 		if r := recover(); r != nil {
 			f = nil // panics are C01's
@@ -152,7 +164,7 @@ func checkC02(c SQLCase) (f *report.Failure, rendered, hostile bool) {
 	cols, strs := provenance(c.toks(), c.DF)
 	if sql, err := toPG(text, c.DF); err == nil {
 		rendered = true
-		fl, h := checkSQLText("inline", sql, nil, cols, strs, c)
+		fl, h := checkSQLText("inline", sql, nil, cols, strs, c, text)
 		if fl != nil {
 			return fl, true, false
 		}
@@ -160,7 +172,7 @@ func checkC02(c SQLCase) (f *report.Failure, rendered, hostile bool) {
 	}
 	if sql, params, err := toPGParam(text, c.DF); err == nil {
 		rendered = true
-		fl, h := checkSQLText("param", sql, params, cols, strs, c)
+		fl, h := checkSQLText("param", sql, params, cols, strs, c, text)
 		if fl != nil {
 			return fl, true, false
 		}
@@ -171,11 +183,15 @@ func checkC02(c SQLCase) (f *report.Failure, rendered, hostile bool) {
 
 func init() {
 	replayers["C02"] = func(raw json.RawMessage) *report.Failure {
-		var c SQLCase
+		var c rawSQLCase
 		if err := json.Unmarshal(raw, &c); err != nil {
 			return report.Failf("replay", "bad case: %v", err)
 		}
-		f, _, _ := checkC02(c)
+		if c.Raw != nil {
+			f, _, _ := checkC02Raw(c)
+			return f
+		}
+		f, _, _ := checkC02(c.SQLCase)
 		return f
 	}
 }
